@@ -37,6 +37,7 @@ type Bucket struct {
 	collections     collectionsMap // Collections, indexed by DataStoreName
 	collectionFeeds map[sgbucket.DataStoreNameImpl][]*dcpFeed
 	mutex           *sync.Mutex    // mutex for synchronized access to Bucket
+	feedMutex       *sync.Mutex    // keeps a write's commit and the posting of its event atomic, so feeds see CAS order
 	sqliteDB        *sql.DB        // SQLite database handle (do not access; call db() instead)
 	expManager      *expiryManager // expiration manager for bucket
 	serial          uint32         // Serial number for logging
@@ -170,6 +171,7 @@ func OpenBucket(urlStr string, bucketName string, mode OpenMode) (b *Bucket, err
 		collections:     make(map[sgbucket.DataStoreNameImpl]*Collection),
 		collectionFeeds: make(map[sgbucket.DataStoreNameImpl][]*dcpFeed),
 		mutex:           &sync.Mutex{},
+		feedMutex:       &sync.Mutex{},
 		inMemory:        inMemory,
 		serial:          serial,
 	}
@@ -393,6 +395,7 @@ func (b *Bucket) copy() *Bucket {
 		collectionFeeds: b.collectionFeeds,
 		collections:     make(collectionsMap),
 		mutex:           b.mutex,
+		feedMutex:       b.feedMutex,
 		sqliteDB:        b.sqliteDB,
 		expManager:      b.expManager,
 		serial:          b.serial,
